@@ -845,6 +845,17 @@ func cookieOctet(b byte) bool {
 	return b >= 0x20 && b < 0x7f && b != '"' && b != ';' && b != '\\'
 }
 
+// exoticBlank: the text holds HTAB or a byte above 0x7f (no-break space, ideographic space, ...). hertz's own round trip is
+// demanded for such values; net/http sanitises them in its own way and is not consulted.
+func exoticBlank(s string) bool {
+	for i := 0; i < len(s); i++ {
+		if s[i] == '\t' || s[i] >= 0x80 {
+			return true
+		}
+	}
+	return false
+}
+
 func checkCookie(c *mc.Ctx, st *stats, cc *CookieCase) {
 	cs := &Case{Kind: "cookie", Cookie: cc}
 	defer guard(c, "cookie", cs)
@@ -941,7 +952,7 @@ func checkCookie(c *mc.Ctx, st *stats, cc *CookieCase) {
 		}
 	}
 	// net/http reads the same cookie (names it accepts: non-empty tokens)
-	if isToken(string(cc.Key)) {
+	if isToken(string(cc.Key)) && !exoticBlank(string(cc.Value)) && !exoticBlank(string(cc.Path)) && !exoticBlank(string(cc.Domain)) {
 		hc, err := http.ParseSetCookie(string(s))
 		if err != nil {
 			c.Violate("cookie|nethttp-rejects", fmt.Sprintf("%s: Cookie()=%q; net/http.ParseSetCookie: %v", desc(), s, err), cs)
@@ -1358,10 +1369,12 @@ func enumCookies(c *mc.Ctx) {
 
 	// D3: every attribute combination
 	type kvp struct{ k, v string }
-	kvs := []kvp{{"k", "v"}, {"K.1", "a=b c,d"}, {"", "v"}, {"k", ""}, {"k", " v"}, {"k", "v "}, {"k", " "}}
+	kvs := []kvp{{"k", "v"}, {"K.1", "a=b c,d"}, {"", "v"}, {"k", ""}, {"k", " v"}, {"k", "v "}, {"k", " "},
+		// other blanks at the edges (HTAB, no-break space, ideographic space, next line): only SP is optional whitespace there
+		{"k", "a\t"}, {"k", "\ta"}, {"k", "10\u00a0"}, {"k", "\u3000x"}, {"k", "x\u0085"}, {"k\u00a0", "v"}}
 	maxAges := []int{0, 1, 86400, 2147483647}
 	domains := []string{"", "example.com", ".Sub.Example.COM"}
-	paths := []string{"", "/", "/a/B c", "/..", "/a/../..", "/a%3Bb", "/x%20", "/p%3B%20Domain=evil.example"}
+	paths := []string{"", "/", "/a/B c", "/..", "/a/../..", "/a%3Bb", "/x%20", "/p%3B%20Domain=evil.example", "/dir\u00a0", "/dir%09"}
 	var combos []CookieCase
 	for _, ma := range maxAges {
 		for e := -1; e < len(instants); e++ {
